@@ -77,6 +77,7 @@ BUG_AUDIT = {
     "aranya_runtime::sync::responder::SyncResponder::find_needed_segments": "own storage lookups; max_cut arithmetic",
     "aranya_runtime::sync::responder::SyncResponder::get_commands": "own storage lookups; length arithmetic bounded by buffer sizes",
     "aranya_runtime::sync::responder::SyncResponder::get_next": "length arithmetic, message_index counter",
+    "aranya_runtime::sync::responder::SyncResponder::advance": "to_send.get_mut(next_send): next_send is the loop index at which get_commands stopped inside to_send, so it is in bounds whenever a resume point is returned",
     "aranya_runtime::sync::responder::SyncResponder::poll": "state machine invariant",
     "aranya_runtime::sync::responder::SyncResponder::push": "length arithmetic, message_index counter",
     "aranya_runtime::sync::responder::SyncResponder::session_id": "session id must be set after start",
